@@ -152,3 +152,44 @@ func ScorchRecords(evs []Event) []any {
 	}
 	return out
 }
+
+// SimulatedSchedules asks TLC for n simulated behaviours of ScorchDisk.tla and
+// projects them onto schedules (Engine S).
+func SimulatedSchedules(c *core.Ctx, n, depth int, seed int64, safe bool) ([]Schedule, error) {
+	cfg := "ScorchDisk_sim_unsafe.cfg"
+	if safe {
+		cfg = "ScorchDisk_sim_safe.cfg"
+	}
+	behs, err := c.Simulate("ScorchDisk", cfg, n, depth, seed, core.Timeout(10*time.Minute))
+	if err != nil {
+		return nil, err
+	}
+	var out []Schedule
+	for _, b := range behs {
+		s := ProjectSchedule(b, safe)
+		if len(s.Steps) > 0 {
+			out = append(out, s)
+		}
+	}
+	return out, nil
+}
+
+// RunSchedule executes one TLC-generated schedule on a fresh disk scorch index.
+// after is called after every step (observations); the finished Run is returned closed.
+func RunSchedule(dir string, sch Schedule, seed int64, after func(r *Run, i int, st SchedStep)) (*Run, *Scheduler, error) {
+	kv := map[string]interface{}{}
+	if !sch.Safe {
+		kv["unsafe_batch"] = true
+	}
+	wl := Workload{Name: "tlc-schedule", Writers: sch.Writers, Safe: sch.Safe, KVConfig: kv}
+	r, err := Start(dir, wl, seed, 0)
+	if err != nil {
+		return nil, nil, err
+	}
+	s := NewScheduler(r)
+	if after != nil {
+		s.AfterStep = func(i int, st SchedStep, moved bool) { after(r, i, st) }
+	}
+	s.Execute(sch)
+	return r, s, nil
+}
